@@ -168,6 +168,6 @@ pub fn prop() -> Prop<Case> {
         run,
         enumerate: Some(enumerate),
         exhaustive: |_| false,
-        max_shrink_iters: 2000,
+        max_shrink_iters: 400,
     }
 }
